@@ -231,7 +231,8 @@ def run_semantic(res, sources, opts=None, count=30, extra_case=None, label="prog
             for name in obs_names:
                 if name in pnames:
                     continue
-                cl = classify_mismatch(c, v, {"name": name, "expected": {}, "got": {}})
+                mm0 = {"name": name, "expected": {}, "got": {}}
+                cl = classify_mismatch(c, v, mm0) or (classify_extra(c, v, mm0) if classify_extra else None)
                 if cl:
                     res.known(cl[0], cl[1], example={"source": c["source"], "unproved": name})
                     stats["finding(static):" + cl[0]] += 1
